@@ -22,7 +22,6 @@ def parseQLbl (s : String) : Option Lbl :=
   | 'x' => some .signal
   | _ => none
 
-def showPlus (xs : List Nat) : String := if xs.isEmpty then "-" else "+".intercalate (xs.map toString)
 
 def qLine (toks : List String) : String :=
   match kv toks "kind", kvNat toks "n", kv toks "sched" with
